@@ -151,7 +151,20 @@ func numericSource(rng *Rng, g *Gen) Event {
 		return Event{K: "df", DF: compact_float.DFloat{Exponent: ex, Coefficient: c}}
 	case 7:
 		c := new(big.Int).SetBytes(rng.Bytes(1 + rng.Intn(12)))
-		d := apd.NewWithBigInt(c, []int32{0, 0, 1, -1, 3, -3, 20, 40}[rng.Intn(8)])
+		ex := []int32{0, 0, 1, -1, 3, -3, 20, 40}[rng.Intn(8)]
+		if rng.P(1, 2) {
+			// boundary magnitudes of the integer destinations: 2^k, 2^k +- 1, also spelled with a negative exponent
+			k := []uint{7, 8, 15, 16, 24, 31, 32, 53, 63, 64, 65, 127}[rng.Intn(12)]
+			c = new(big.Int).Lsh(big.NewInt(1), k)
+			c.Add(c, big.NewInt(int64(rng.Intn(3)-1)))
+			ex = 0
+			if rng.P(1, 4) {
+				sh := 1 + rng.Intn(3)
+				c.Mul(c, new(big.Int).Exp(big.NewInt(10), big.NewInt(int64(sh)), nil))
+				ex = -int32(sh)
+			}
+		}
+		d := apd.NewWithBigInt(c, ex)
 		d.Negative = rng.P(1, 2)
 		return Event{K: "bdf", BD: d}
 	case 8:
